@@ -216,10 +216,9 @@ def gen(rng, tier):
         cutat = rng.randrange(1, len(mine1)) if len(mine1) > 1 else 0
         npk = mine1[cutat] if cutat else 0          # packets of it1 before its cutat-th PMT packet
         carried = sum(len(it[-1]) for it in it1[:npk] if it[0] == 1)
-        h2 = vlib.run_model(["spec.hyp.read %s %d %d %s" % (L.carrier_args(c2), c2["stuffing"], pid, fmt_val(it2)),
-                             "spec.hyp.carrier " + L.carrier_args(c1)])
-        ok_r = npk > 0 and carried < c1["unit_len"] and h2 == ["1", "1"] and not (
-            set(c1["inner_ends"]) & set(sum(len(it[-1]) for it in it1[:j] if it[0] == 1) for j in range(npk + 1)))
+        h2 = vlib.run_model(["spec.hyp.interrupted %s %s %s %d %d %s" % (
+            L.carrier_args(c1), fmt_val(it1[:npk]), L.carrier_args(c2), c2["stuffing"], pid, fmt_val(it2))])
+        ok_r = npk > 0 and carried < c1["unit_len"] and h2 == ["1"]      # hyp_interruptedb: every hypothesis of the theorem
         line = "pmt.read %s %d" % (hx(b"".join(k1[:npk] + k2)), pid)
         if ok_r:
             want_spec(line, "spec.read", c2)
